@@ -836,3 +836,290 @@ def run(ctx):
     _run_main_r7(ctx)
     _LW.corr_step_dir(ctx)
     ctx.flush()
+
+
+# ---- extras3 (hx_r7d, round 7): nodes and queries held in DIFFERENT precisions / number types; consecutive step fits of rearranged series -------
+# The property quantifies over "all monotone node sets and query points (inside, on nodes, outside)".  A float32 / float16 / integer node IS an
+# exact rational, and so is a float64 / float32 / integer query: the specification is evaluated on the exact values of the arrays AS GIVEN.  The
+# telling queries sit just below / exactly on / just above a node -- one step of the QUERY's precision away, or within half a step of the NODE's
+# (coarser) precision, where converting the query to the node type (or the node to the query type) moves it across the node.
+
+_X3_NODE_DTYPES = ('float32', 'float32', 'float16', 'int64', 'int32', 'int16', 'uint8', 'float64')
+
+
+def _x3_nodes(rng, dtype, n, strict):
+    """sorted node array of the given dtype (label, array); strict: strictly increasing (interp2d), otherwise ties may occur"""
+    dt = np.dtype(dtype)
+    if dt.kind in 'iu':
+        lo = 0 if dt.kind == 'u' else -40
+        vals = sorted(rng.sample(range(lo, 120), n)) if strict or rng.random() < 0.6 else sorted(rng.randint(lo, 30) for _ in range(n))
+        return 'whole numbers', np.array(vals, dtype=dt)
+    style = rng.choice(['decimal grid', 'decimal grid', 'random', 'dyadic'])
+    if style == 'decimal grid':
+        step = rng.choice([0.1, 0.01, 0.05, 0.3, 0.002] if dtype != 'float16' else [0.1, 0.3, 0.05])
+        k0 = rng.randint(-5, 30)
+        raw = [step * (k0 + k) for k in range(n)]                         # 0.1*k: almost never representable in single / half precision
+    elif style == 'random':
+        raw = sorted(rng.uniform(-5, 5) for _ in range(n))
+    else:
+        raw = sorted(rng.sample(range(-64, 200), n))
+        raw = [v / 8 for v in raw]
+    a = np.array(raw, dtype=float).astype(dt)
+    if strict:
+        a = np.unique(a)
+    return style, np.sort(a)
+
+
+def _x3_query_values(rng, nodes, qdtype, how_many, allow_below_first, near_first_ok):
+    """exact query values (Python floats, each representable in qdtype) clustered around the nodes"""
+    qt = np.dtype(qdtype)
+    exact_nodes = [float(v) for v in nodes]
+    node_step = (lambda v: 1.0) if nodes.dtype.kind in 'iu' else (lambda v: abs(float(np.spacing(nodes.dtype.type(v)))))
+    out = []
+    for _ in range(how_many):
+        v = rng.choice(exact_nodes)
+        c = rng.random()
+        if qt.kind in 'iu':
+            q = float(int(round(v)) + rng.choice([0, 0, -1, 1, 2]))
+        else:
+            vq = qt.type(v)                                                  # the node rounded to the query's precision (== v when that is finer)
+            if c < 0.2:
+                q = float(vq)
+            elif c < 0.4:
+                q = float(np.nextafter(vq, qt.type(-np.inf)))                # one step of the query's precision below ...
+            elif c < 0.55:
+                q = float(np.nextafter(vq, qt.type(np.inf)))                 # ... and above
+            elif c < 0.75:
+                q = float(qt.type(v + rng.choice([-0.49, -0.25, -0.5, 0.25, 0.49, -0.01]) * node_step(v)))   # within half a step of the NODE's precision
+            elif c < 0.85:
+                q = float(qt.type(round(v, rng.choice([1, 2, 3]))))          # the decimal the node was meant to be
+            elif c < 0.95:
+                w = rng.choice(exact_nodes)
+                q = float(qt.type((v + w) / 2))
+            else:
+                q = float(qt.type(exact_nodes[-1] + rng.choice([0.0, 0.5, 1000.0])))
+        if q < exact_nodes[0]:
+            if not allow_below_first and qt.kind in 'iu':
+                q = float(math.ceil(exact_nodes[0]))
+            elif not allow_below_first:
+                q = exact_nodes[0] if float(qt.type(exact_nodes[0])) == exact_nodes[0] else float(np.nextafter(qt.type(exact_nodes[0]), qt.type(np.inf)))
+                if q < exact_nodes[0]:
+                    continue
+            elif not near_first_ok and q > exact_nodes[0] - 4 * node_step(exact_nodes[0]):
+                q = float(qt.type(math.floor(exact_nodes[0]) - 1.0))         # clearly below (see NOTES: weakly typed queries next to a narrow first node)
+        out.append(q)
+    return out
+
+
+def _x3_interp_left(ctx, cur):
+    from eqsig.fns.generic import interp_left
+    rng = ctx.rng
+    for it in range(260 if ctx.tier == 'quick' else 4000):
+        ndt = _X3_NODE_DTYPES[it % len(_X3_NODE_DTYPES)]
+        n = rng.choice([1, 2, 3, 5, 8, 20, 40])
+        if ndt in ('int16', 'uint8', 'int32', 'int64'):
+            n = min(n, 40)
+        style, xa = _x3_nodes(rng, ndt, n, strict=False)
+        n = len(xa)
+        # query precision: the other side of the pair
+        if xa.dtype.kind in 'iu':
+            qdt = rng.choice(['float64', 'float64', 'float32', 'int64'])
+        elif ndt == 'float64':
+            qdt = rng.choice(['float32', 'float32', 'float16', 'int64'])
+        else:
+            qdt = rng.choice(['float64', 'float64', 'float64', 'float32' if ndt == 'float16' else 'float16'])
+        form = rng.choice(['array', 'array', 'array', 'numpy scalar', 'list of Python numbers', 'Python scalar'])
+        if qdt != 'float64' and form in ('list of Python numbers', 'Python scalar') and qdt != 'int64':
+            form = 'array'                                                   # a Python float IS a double
+        weak = form in ('list of Python numbers', 'Python scalar')
+        narrow_first = xa.dtype.kind == 'f' and xa.dtype.itemsize < 8
+        qs = _x3_query_values(rng, xa, qdt, 1 if 'scalar' in form else rng.randint(1, 7), allow_below_first=rng.random() < 0.15,
+                              near_first_ok=not (weak and narrow_first))
+        if not qs:
+            continue
+        scalar = 'scalar' in form
+        if form == 'array':
+            q = np.array(qs, dtype=qdt)
+        elif form == 'numpy scalar':
+            q = np.dtype(qdt).type(qs[0])
+        elif form == 'Python scalar':
+            q = int(qs[0]) if qdt == 'int64' else float(qs[0])
+        else:
+            q = [int(v) for v in qs] if qdt == 'int64' else [float(v) for v in qs]
+        ymode = rng.choice(['None', 'float64', 'float32', 'int'])
+        if ymode == 'None':
+            ya, yy = None, list(range(n))
+        elif ymode == 'int':
+            yy = [rng.randint(-50, 50) for _ in range(n)]
+            ya = np.array(yy, dtype=np.int64)
+        else:
+            yy = [rng.randint(-4000, 4000) / 8 for _ in range(n)]           # exact in every float type used
+            ya = np.array(yy, dtype=ymode)
+        xs = [float(v) for v in xa]
+        label = f'{ndt} nodes x {qdt} queries'
+        inputs = {'x0': qs, 'x0_held_as': f'{form} ({qdt})', 'x': xs, 'x_dtype': ndt, 'y': None if ya is None else yy, 'y_dtype': ymode, 'nodes': style}
+        cur.clear()
+        cur.update(inputs)
+        ctx.hist('extras3/interp_left/' + label)
+        ctx.hist('extras3/interp_left/queries held as ' + form)
+        ctx.count_case(('x3il', tuple(qs), tuple(xs), ndt, qdt, form, ymode), n >= 3 and len(set(xs)) > 1)
+        snap = xa.copy()
+        res = call_impl(interp_left, q, xa, ya)
+        ctx.corr('interp_left', (f"interp_left_scalar|{w_rat(qs[0])}" if scalar else f"interp_left|{w_rats(qs)}") + f"|{w_rats(xs)}|{w_bool(ya is not None)}|{w_rats([float(v) for v in yy] if ya is not None else [])}",
+                 res, lambda outs, val, scalar=scalar: cmp_exact([float(val)] if scalar else [float(v) for v in np.asarray(val).tolist()], p_rats(outs[0])), inputs=inputs)
+        below = min(qs) < xs[0]
+        ctx.oracle('C20.b interp_left raises AssertionError iff a query lies below the first node', (res == ('err', 'AssertionError')) == below, inputs,
+                   detail=res if res[0] == 'err' else None)
+        if below:
+            continue
+        if res[0] != 'ok':
+            ctx.oracle('C20.b interp_left returns a value for every query at or above the first node', False, inputs, detail=res)
+            continue
+        got = [res[1]] if scalar else list(np.asarray(res[1]).tolist())
+        ctx.oracle('C20.b interp_left returns one value per query (a scalar for a scalar query)', len(got) == len(qs) and (not scalar or np.ndim(res[1]) == 0), inputs)
+        ctx.oracle('C20.b interp_left leaves the node array unchanged (values and dtype)', xa.dtype == snap.dtype and np.array_equal(xa, snap), inputs)
+        fx = [fr(v) for v in xs]
+        for qv, g in zip(qs, got):
+            j = max(i for i in range(n) if fx[i] <= fr(qv))
+            ctx.oracle('C20.b left-interpolation returns the value at the greatest node not exceeding the query', fr(float(g)) == fr(float(yy[j])),
+                       {**inputs, 'query': qv}, detail={'got': float(g), 'want': yy[j], 'node_index': j, 'node': xs[j], 'next_node': xs[j + 1] if j + 1 < n else None})
+
+
+def _x3_interp2d(ctx, cur):
+    from eqsig.fns.generic import interp2d
+    rng = ctx.rng
+    for it in range(120 if ctx.tier == 'quick' else 2000):
+        ndt = ('float32', 'float16', 'int64', 'int32', 'float64', 'float32', 'int16')[it % 7]
+        # node gaps exactly representable in the node type (whole numbers / eighths): the arithmetic the code does in that type is then exact, and the
+        # 1e-9 budget of the float64 pipeline applies; decimal float64 nodes for the float32-query direction
+        if ndt == 'float64':
+            n = rng.choice([2, 3, 5, 9])
+            k0 = rng.randint(-5, 20)
+            step = rng.choice([0.1, 0.3, 0.01])
+            axf = np.array([step * (k0 + k) for k in range(n)])
+            qdt = rng.choice(['float32', 'float32', 'int64'])
+        elif np.dtype(ndt).kind == 'i':
+            axf = np.array(sorted(rng.sample(range(-30, 60), rng.choice([1, 2, 3, 5, 9]))), dtype=ndt)
+            qdt = rng.choice(['float64', 'float64', 'float32', 'int64'])
+        else:
+            axf = np.array(sorted(rng.sample(range(-64, 200), rng.choice([1, 2, 3, 5, 9]))), dtype=float) / 8
+            axf = axf.astype(ndt)
+            qdt = 'float64'
+        n = len(axf)
+        w = rng.choice([1, 2, 3])
+        fdt = rng.choice(['float64', 'float64', 'float32', 'int64'])
+        f = [[(rng.randint(-64, 64) if fdt == 'int64' else rng.randint(-512, 512) / 8) for _ in range(w)] for _ in range(n)]
+        af = np.array(f, dtype=fdt).reshape(n, w)
+        xs = [float(v) for v in axf]
+        qs = []
+        for _ in range(rng.randint(1, 8)):
+            c = rng.random()
+            if c < 0.45:
+                qs += _x3_query_values(rng, axf, qdt, 1, allow_below_first=True, near_first_ok=True)
+            elif c < 0.8:
+                q = rng.uniform(xs[0] - 0.5, xs[-1] + 0.5)
+                q = round(q, rng.choice([1, 2, 3])) if rng.random() < 0.6 else q       # a decimal: not representable in single / half precision
+                qs.append(float(np.dtype(qdt).type(q)) if qdt != 'int64' else float(round(q)))
+            else:
+                qs.append(float(rng.choice(xs)) if qdt != 'int64' else float(round(rng.choice(xs))))
+        ax = np.array(qs, dtype=qdt)
+        qs = [float(v) for v in ax]
+        inputs = {'x': qs, 'x_dtype': qdt, 'xf': xs, 'xf_dtype': ndt, 'f': [list(r) for r in f], 'f_dtype': fdt}
+        cur.clear()
+        cur.update(inputs)
+        ctx.hist(f'extras3/interp2d/{ndt} nodes x {qdt} queries')
+        ctx.count_case(('x3i2', tuple(qs), tuple(xs), ndt, qdt, fdt, repr(f)), n >= 3)
+        snap = (ax.copy(), axf.copy(), af.copy())
+        res = call_impl(interp2d, ax, axf, af)
+        ff = [[fr(float(v)) for v in r] for r in af.tolist()]
+        scale = max([abs(v) for r in ff for v in r] + [Fraction(1, 10**300)])
+        # NumPy evaluates float32 queries against float32 / float16 / int16 / uint8 nodes in SINGLE precision (its promotion rule for the
+        # arguments as given): the rounding budget is then that of a single-precision pipeline (1e-6), on-node / clamped rows stay exact
+        bud = Fraction(1, 10**6) if np.result_type(ax.dtype, axf.dtype) == np.float32 else R9
+        ctx.hist('extras3/interp2d/arithmetic in ' + ('single' if bud != R9 else 'double') + ' precision')
+
+        def compare(outs, val, nq=len(qs), w=w, scale=scale, bud=bud):
+            val = np.asarray(val)
+            if val.shape != (nq, w):
+                return f"shape {val.shape}"
+            msg, g = cmp_budget(flat(val), [v for row in outs for v in p_rats(row)], bud, scale=scale)
+            if bud == R9:
+                ctx.gap('interp2d', g)
+            return msg
+        ctx.corr('interp2d', f"interp2d|{w_rats(qs)}|{w_rats(xs)}|{n}|{w}|{w_rats([float(v) for r in af.tolist() for v in r])}", res, compare, inputs=inputs)
+        if res[0] != 'ok':
+            ctx.oracle('C20.a interp2d returns a table for strictly increasing nodes', False, inputs, detail=res)
+            continue
+        out = np.asarray(res[1])
+        ctx.oracle('C20.a interp2d output has one row per query and one column per table column', out.shape == (len(qs), w), inputs, detail={'shape': out.shape})
+        ctx.oracle('C20.a interp2d leaves its inputs unchanged', all(a.dtype == b.dtype and np.array_equal(a, b) for a, b in zip((ax, axf, af), snap)), inputs)
+        if out.shape != (len(qs), w):
+            continue
+        fx = [fr(v) for v in xs]
+        for k, qv in enumerate(qs):
+            fq = fr(qv)
+            want = spec_interp_row(fq, fx, ff)
+            got = [fr(float(v)) for v in out[k].tolist()]
+            on_node = fq in fx
+            outside = fq <= fx[0] or fq >= fx[-1]
+            ok = (got == want) if (on_node or outside) else all(abs(a - b) <= bud * scale for a, b in zip(got, want))
+            where = 'on a node' if on_node else ('outside the node range' if outside else 'between nodes')
+            ctx.oracle(f'C20.a table interpolation == column-wise linear interpolation with end clamping ({where})', ok, {**inputs, 'query': qv},
+                       detail={'got': out[k].tolist(), 'want': [float(v) for v in want]})
+
+
+def _x3_step_sequences(ctx, cur):
+    """consecutive step fits of DIFFERENT series that agree in everything cheap to look at (length, dtype, first and last sample, sum, multiset of
+    values): interior samples permuted / two samples exchanged / a +d -d pair moved -- each fit must be that of its own series (existing do_step
+    correspondence and C20.d / C20.e oracles; float arrays and float lists)"""
+    rng = ctx.rng
+    for it in range(40 if ctx.tier == 'quick' else 600):
+        n = rng.choice([4, 5, 6, 8, 12, 20])
+        kind = rng.choice(['counts', 'plateau', 'twolevel', 'dyadic'])
+        if kind == 'counts':
+            v = [float(rng.randint(0, 6)) for _ in range(n)]
+        elif kind == 'plateau':
+            v = gen.plateau_record(rng, n).tolist()
+        elif kind == 'dyadic':
+            v = gen.dyadic_record(rng, n).tolist()
+        else:
+            k = rng.randrange(1, n)
+            v = [rng.choice([0.0, 0.25, -0.25]) + (3.0 if i >= k else -1.0) for i in range(n)]
+        chain = [v]
+        for _ in range(rng.choice([1, 2, 3])):
+            u = list(chain[-1])
+            op = rng.choice(['permute interior', 'exchange two', 'move a pair'])
+            if op == 'permute interior':
+                mid = u[1:-1]
+                rng.shuffle(mid)
+                u = [u[0]] + mid + [u[-1]]
+            elif op == 'exchange two':
+                i, j = rng.sample(range(1, n - 1), 2) if n >= 4 else (1, 1)
+                u[i], u[j] = u[j], u[i]
+            else:
+                i, j = rng.sample(range(1, n - 1), 2) if n >= 4 else (1, 1)
+                d = rng.choice([0.5, 1.0, 2.0])
+                u[i], u[j] = u[i] + d, u[j] - d                       # same ends and (exactly) the same sum, another multiset
+            chain.append(u)
+        cont = rng.choice(['float_array', 'float_array', 'float_list'])
+        cur.clear()
+        cur.update({'series fitted one after the other': chain, 'container': cont})
+        pows = rng.choice([(1,), (2,), (1, 2)])
+        for u in chain:
+            do_step(ctx, u, 'consecutive rearranged series/' + kind, cont, pows=pows, dirs=(None,), inds=())
+    ctx.flush()
+
+
+def extras3(ctx):
+    from _hxb_common import guarded_sections
+    guarded_sections(ctx, 'C20', [('mixed-precision interp_left', _x3_interp_left), ('mixed-precision interp2d', _x3_interp2d), ('step sequences', _x3_step_sequences)])
+    ctx.flush()
+
+
+_run_main3 = run
+
+
+def run(ctx):
+    _run_main3(ctx)
+    extras3(ctx)
+    ctx.flush()
